@@ -4,7 +4,10 @@
   Components (Adapter/Resurrector.lean, Adapter/ResPool.lean):
     `Res.comp`   ResurrectorSink over abstract channels, turn by turn   (Model/Resurrector.lean)
     `Pool.comp`  ResurrectorSink → WatermarkPoolSink → serial Thrift transport, at quiescence,
-                 every operation's tasks under an arbitrary schedule    (Model/ResChain.lean)
+                 every operation's tasks under an arbitrary schedule, for every pool configuration
+                 (min_watermark `lo` ∈ ℕ — with 0 the pool keeps no connection: the probe connection of
+                 `Open()` / of a reconnection is closed again and every request opens its own —,
+                 max_watermark `hi` ≥ 1)                                 (Model/ResChain.lean)
     `ResMux.comp` ResurrectorSink → ThriftMux SocketTransportSink (the chain the ThriftMux builder assembles;
                  no pool in between), at quiescence after every stimulus: connect accepted / refused, each
                  write and read of the connection (also bursts, and a fault between the dispatch of the
@@ -37,13 +40,66 @@ theorem C09_model_satisfies_spec (cfg : Cfg) (ops : List Op) (h : comp.wf cfg op
     simpa [comp, Bool.and_eq_true] using h
   exact spec_trace cfg h'.1 ops {} {} false false 0 (cpl_init cfg.par) h'.2
 
-/-- The same for the resurrector over the real pool and transport (Thrift stack), whatever the
-    order in which the tasks of each operation run. -/
-theorem C09_model_satisfies_spec_respool (cfg : Cfg) (ops : List Pool.Op)
+/-- The same for the resurrector over the real pool and transport (Thrift stack), for every pool
+    configuration (any `min_watermark`, also 0; any `max_watermark ≥ 1`), whatever the order in
+    which the tasks of each operation run. -/
+theorem C09_model_satisfies_spec_respool (cfg : Pool.Cfg) (ops : List Pool.Op)
     (h : Pool.comp.wf cfg ops = true) : Pool.comp.spec cfg (Pool.comp.modelTrace cfg ops) = .ok := by
-  have h' : cfgWF cfg = true ∧ Pool.wfGo cfg.par {} false false ops = true := by
-    simpa [Pool.comp, Bool.and_eq_true] using h
-  exact Pool.spec_trace cfg h'.1 ops {} {} false false 0 (Pool.inv_init cfg.par) h'.2
+  have h' : (cfgWF cfg.r = true ∧ 1 ≤ cfg.w.hi) ∧ Pool.wfGo cfg.r.par cfg.w {} false false ops = true := by
+    simpa [Pool.comp, Pool.cfgWF, Bool.and_eq_true] using h
+  exact Pool.spec_trace cfg h'.1.1 h'.1.2 ops {} {} false false 0 (Pool.inv_init cfg.r.par) h'.2
+
+/-- **recovery with every pool configuration, `min_watermark = 0` included.**  In every reachable
+    state of the Thrift chain in which the resurrector fails fast with its retry greenlet asleep,
+    whatever the pool's watermarks: the wake instant lies at most one maximum interval ahead; and
+    if the endpoint accepts connections at that instant then — under every schedule of the
+    attempt's tasks — the attempt makes exactly one connect, clears `_down_on`, installs the new
+    pool as next sink and reports Open (although, with `min_watermark = 0`, the pool has closed the
+    probe connection again), and the next request — under every schedule — is answered by the
+    peer: on the kept connection (`min_watermark ≥ 1`, no connect) or on a connection of its own
+    (`min_watermark = 0`, one connect), and the channel stays up. -/
+theorem C09_respool_recovers_within_max (cfg : Pool.Cfg) (ops : List Pool.Op) (h : Pool.comp.wf cfg ops = true)
+    (hd : (Pool.runOps cfg {} ops).mode = some .down) :
+    (Pool.runOps cfg {} ops).now < (Pool.runOps cfg {} ops).wakeAt ∧
+    (Pool.runOps cfg {} ops).wakeAt ≤ (Pool.runOps cfg {} ops).now + cfg.r.maxW ∧
+    ((Pool.runOps cfg {} ops).reach = true → ∀ sched sched' : List Nat,
+      (Pool.stepSt cfg.r.par cfg.w (Pool.runOps cfg {} ops)
+        (.tick ((Pool.runOps cfg {} ops).wakeAt - (Pool.runOps cfg {} ops).now) sched)).mode = some .up ∧
+      (Pool.obsOf (Pool.stepSt cfg.r.par cfg.w (Pool.runOps cfg {} ops)
+        (.tick ((Pool.runOps cfg {} ops).wakeAt - (Pool.runOps cfg {} ops).now) sched))).connects = 1 ∧
+      (Pool.obsOf (Pool.stepSt cfg.r.par cfg.w (Pool.runOps cfg {} ops)
+        (.tick ((Pool.runOps cfg {} ops).wakeAt - (Pool.runOps cfg {} ops).now) sched))).down = false ∧
+      (Pool.obsOf (Pool.stepSt cfg.r.par cfg.w (Pool.runOps cfg {} ops)
+        (.tick ((Pool.runOps cfg {} ops).wakeAt - (Pool.runOps cfg {} ops).now) sched))).next =
+          some (Pool.runOps cfg {} ops).pools ∧
+      (Pool.obsOf (Pool.stepSt cfg.r.par cfg.w (Pool.runOps cfg {} ops)
+        (.tick ((Pool.runOps cfg {} ops).wakeAt - (Pool.runOps cfg {} ops).now) sched))).state = .opened ∧
+      (Pool.obsOf (Pool.stepSt cfg.r.par cfg.w (Pool.stepSt cfg.r.par cfg.w (Pool.runOps cfg {} ops)
+        (.tick ((Pool.runOps cfg {} ops).wakeAt - (Pool.runOps cfg {} ops).now) sched))
+        (.req false sched'))).resp = .ok ∧
+      (Pool.obsOf (Pool.stepSt cfg.r.par cfg.w (Pool.stepSt cfg.r.par cfg.w (Pool.runOps cfg {} ops)
+        (.tick ((Pool.runOps cfg {} ops).wakeAt - (Pool.runOps cfg {} ops).now) sched))
+        (.req false sched'))).connects = (if 1 ≤ cfg.w.lo then 0 else 1) ∧
+      (Pool.stepSt cfg.r.par cfg.w (Pool.stepSt cfg.r.par cfg.w (Pool.runOps cfg {} ops)
+        (.tick ((Pool.runOps cfg {} ops).wakeAt - (Pool.runOps cfg {} ops).now) sched))
+        (.req false sched')).mode = some .up) := by
+  have h' : (cfgWF cfg.r = true ∧ 1 ≤ cfg.w.hi) ∧ Pool.wfGo cfg.r.par cfg.w {} false false ops = true := by
+    simpa [Pool.comp, Pool.cfgWF, Bool.and_eq_true] using h
+  obtain ⟨a, o, c, hI⟩ := Pool.inv_run cfg h'.1.1 h'.1.2 ops {} {} false false (Pool.inv_init cfg.r.par) h'.2
+  exact Pool.recovers cfg h'.1.1 h'.1.2 _ a o c hI hd
+
+/-- The chain-level core of it: for every pair of watermarks with `max_watermark ≥ 1` and every
+    schedule, a reconnection attempt against a reachable endpoint ends — one connect made — in the
+    quiescent state "up" of that configuration, and a request issued in that state against an
+    answering peer ends there again, answered; it made a connect of its own exactly when
+    `min_watermark = 0`. -/
+theorem C09_respool_reconnect_every_watermark (w : WM) (hw : 1 ≤ w.hi) (sched sched' : List Nat) :
+    Pool.outcome w (Pool.drain w (opWake (Pool.canon w .down true)) sched) = ⟨some .up, 1, .none, .none⟩ ∧
+    Pool.outcome w (Pool.drain w (opReq (Pool.canon w .up true) false) sched') =
+      ⟨some .up, if 1 ≤ w.lo then 0 else 1, .ok, .none⟩ := by
+  refine ⟨by simpa using Pool.T_wake w hw true sched, ?_⟩
+  have := Pool.T_req_up w hw true false sched'
+  simpa [Pool.reqFails, Pool.keep] using this
 
 /-- While the resurrector is in fail-fast mode (`_down_on` set) it has no next sink, and a request
     is answered FailedFast without reaching any sink — in every reachable state. -/
@@ -152,29 +208,44 @@ theorem C09_closed_stops_retry (cfg : Cfg) (ops1 ops2 : List Op)
     exact specStep_close_closed cfg _ _ _
   exact specGo_closed cfg _ hst _ _ h1
 
-/-- Thrift stack, repaired code: whenever the endpoint refuses the first connect, refuses a
-    reconnection attempt, or the peer closes an established connection under a request, the
-    resurrector ends up in fail-fast mode with its retry greenlet asleep — under *every* order in
-    which the subscription, notification, wake-up and request tasks run; and every schedule of at
-    least 16 steps has run them all. -/
-theorem C09_fault_reaches_resurrector_thrift (picks : List Nat) :
-    ∀ c0 ∈ [opOpen (Pool.canon .idle false), opWake (Pool.canon .down false),
-            opReq (Pool.canon .up true) true, opReq (Pool.canon .up false) true],
-      (16 ≤ picks.length → (run c0 picks).tasks = []) ∧
-      ((run c0 picks).tasks = [] → learned (run c0 picks)) := by
+/-- Thrift stack, repaired code, every pool configuration (`max_watermark ≥ 1`): whenever the
+    endpoint refuses the first connect, refuses a reconnection attempt, or the peer closes the
+    connection under a request (a kept connection, or — `min_watermark = 0` — the request's own),
+    the resurrector ends up in fail-fast mode with its retry greenlet asleep — under *every* order
+    in which the subscription, notification, wake-up and request tasks run; and every schedule of
+    at least `fuel` = 20 steps has run them all. -/
+theorem C09_fault_reaches_resurrector_thrift (w : WM) (hw : 1 ≤ w.hi) (picks : List Nat) :
+    ∀ c0 ∈ [opOpen (Pool.canon w .idle false), opWake (Pool.canon w .down false),
+            opReq (Pool.canon w .up true) true, opReq (Pool.canon w .up false) true],
+      (20 ≤ picks.length → (run w c0 picks).tasks = []) ∧
+      ((run w c0 picks).tasks = [] → learned (run w c0 picks)) := by
   intro c0 hc0
   simp only [List.mem_cons, List.not_mem_nil, or_false] at hc0
   rcases hc0 with rfl | rfl | rfl | rfl
-  · exact all_learned _ (by decide) picks
-  · exact all_learned _ (by decide) picks
-  · exact all_learned _ (by decide) picks
-  · exact all_learned _ (by decide) picks
+  · exact all_learned w hw (fun v => opOpen (Pool.canon v .idle false)) (by simp) (by decide) picks
+  · exact all_learned w hw (fun v => opWake (Pool.canon v .down false)) (by simp) (by decide) picks
+  · exact all_learned w hw (fun v => opReq (Pool.canon v .up true) true) (by simp) (by decide) picks
+  · exact all_learned w hw (fun v => opReq (Pool.canon v .up false) true) (by simp) (by decide) picks
+
+/-- With `min_watermark = 0` a request opens its own connection; if that connect is refused the
+    fault signal of the transport the *caller* created crosses pool and resurrector all the same:
+    fail-fast mode, retry greenlet asleep, under every schedule. -/
+theorem C09_fault_reaches_resurrector_thrift_request_connect (w : WM) (hw : 1 ≤ w.hi) (hlo : w.lo = 0)
+    (eof : Bool) (picks : List Nat) :
+    (20 ≤ picks.length → (run w (opReq (Pool.canon w .up false) eof) picks).tasks = []) ∧
+    ((run w (opReq (Pool.canon w .up false) eof) picks).tasks = [] →
+      learned (run w (opReq (Pool.canon w .up false) eof) picks)) := by
+  cases eof
+  · exact all_learned_of _ w (clamp_mem_lo0 w hw hlo) (fun v => opReq (Pool.canon v .up false) false) (by simp)
+      (by decide) picks
+  · exact all_learned_of _ w (clamp_mem_lo0 w hw hlo) (fun v => opReq (Pool.canon v .up false) true) (by simp)
+      (by decide) picks
 
 /-- The code as found (F5: the pool subscribes after `Open().wait()` and `_OpenImpl` sets the pool
-    Open after `_Release` closed it): under gevent's FIFO order a refused first connect leaves the
-    resurrector up, with a pool that calls itself Open over a closed transport. -/
+    Open after `_Release` closed it), shipped watermarks: under gevent's FIFO order a refused first
+    connect leaves the resurrector up, with a pool that calls itself Open over a closed transport. -/
 theorem C09_fault_reaches_resurrector_thrift_counterexample :
-    let c := run (opOpen { Pool.canon .idle false with fixed := false }) (List.replicate 16 0)
+    let c := run {} (opOpen { Pool.canon {} .idle false with fixed := false }) (List.replicate 20 0)
     c.tasks = [] ∧ c.rDown = false ∧ c.rNext = true ∧ c.pSt = .opened ∧ c.tSt = .closed ∧ c.connects = 1 := by
   decide
 
@@ -436,9 +507,30 @@ example : Grows defaultCfg.par := cfg_grows defaultCfg (by decide)
 example : comp.wf ⟨5, 60, [5, 7, 10]⟩
     [.opn, .req, .fault 0, .turn, .req, .reach .down, .tick 5, .tick 7, .reach .up, .tick 10, .req, .close] = true := by
   decide
-example : Pool.comp.wf ⟨5, 60, [5, 7, 10]⟩
+example : Pool.comp.wf ⟨⟨5, 60, [5, 7, 10]⟩, {}⟩
     [.reach false, .opn [], .req false [], .tick 5 [2, 1], .reach true, .tick 7 [], .req true [1], .close []] = true := by
   decide
+/-- `min_watermark = 0`: down at first connect, a refused and an accepted reconnection, a request
+    on a connection of its own, one whose own connect is refused, fail-fast, recovery, `Close()` -/
+example : Pool.comp.wf ⟨⟨5, 60, [5, 7, 10]⟩, ⟨0, 1⟩⟩
+    [.reach false, .opn [], .req false [], .tick 5 [2, 1], .reach true, .tick 7 [], .req false [1],
+     .reach false, .req false [], .req false [], .reach true, .tick 5 [], .req true [0, 2], .close []] = true := by
+  decide
+/-- … and the hypothesis of `C09_respool_recovers_within_max` is met on the way -/
+example : (Pool.runOps ⟨⟨5, 60, [5, 7, 10]⟩, ⟨0, 1⟩⟩ {}
+    [.reach false, .opn [], .req false [], .tick 5 [2, 1], .reach true]).mode = some .down := by
+  decide
+/-- the specification is not vacuous for a pool that keeps nothing: the observations of the seeded
+    change `C09-openimpl-tests-probe-sink` (the successful probe of a reconnection is taken for a
+    failure: the endpoint accepted the connect, the client keeps failing fast) are rejected -/
+example : Pool.spec ⟨⟨5, 60, [5, 7, 10]⟩, ⟨0, 1⟩⟩
+    [(.reach false, ⟨none, false, .idle, .none, 0, 0, .none, 0, 0, [], true⟩),
+     (.opn [], ⟨none, true, .closed, .sleep 5, 1, 0, .none, 1, 1, [.closed], true⟩),
+     (.reach true, ⟨none, true, .closed, .sleep 5, 0, 0, .none, 1, 1, [.closed], true⟩),
+     (.tick 5 [], ⟨none, true, .closed, .sleep 7, 1, 0, .none, 1, 2, [.closed], true⟩),
+     (.req false [], ⟨none, true, .closed, .sleep 7, 0, 0, .ff, 1, 2, [.closed], true⟩)] =
+    .fail "not-resumed" [V.ofNat 4, Pool.encResp .ff] := by
+  rfl
 
 
 /-- the ThriftMux chain: down at first connect, a refused and an accepted reconnection, the handshake, traffic,
